@@ -33,7 +33,7 @@ Inductive dres := DRes (status : N) (l : list iop).
 Inductive case :=
 | CPath (cmds : list aseg) (d : list N) (r : ires)
 | CBad (d : list N) (r : ires)
-| CPoints (arc : bool) (nums : list Q) (d : list N) (ok : bool) (out : list Q)
+| CPoints (arc : bool) (inrange : bool) (nums : list Q) (d : list N) (ok : bool) (out : list Q)
 | CViewbox (p : par) (w h vx vy vw vh : Q) (o1 o2 o3 o4 : Q)
 | CShapes (shs : list shape) (r : dres)
 | CUse (g : graph) (root : list item) (r : dres)
@@ -143,12 +143,16 @@ Definition check_bad (d : list N) (r : ires) : N :=
   | _, _ => 1%N       (* the model panics or runs out of fuel, the implementation does not *)
   end.
 
-Definition check_points (arc : bool) (nums : list Q) (d : list N) (ok : bool) (out : list Q) : N :=
+(* inrange: every number written is within the binary32 range (computed by the
+   harness from the exact values); otherwise ParseFloat reports ErrRange and the
+   whole list is rejected *)
+Definition check_points (arc inrange : bool) (nums : list Q) (d : list N) (ok : bool) (out : list Q) : N :=
   match parse_points cv_f32 arc d with
-  | Ok (Some l) => if negb (qlist_eqb (map rnd32 nums) l) then 3%N
+  | Ok (Some l) => if negb inrange then 5%N
+                   else if negb (qlist_eqb (map rnd32 nums) l) then 3%N
                    else if negb ok then 5%N
                    else if qlist_eqb l out then 0%N else 1%N
-  | Ok None => 3%N
+  | Ok None => if inrange then 3%N else if ok then 5%N else 0%N
   | _ => 1%N
   end.
 
@@ -219,7 +223,7 @@ Definition check (c : case) : N :=
   match c with
   | CPath cmds d r => check_path cmds d r
   | CBad d r => check_bad d r
-  | CPoints arc nums d ok out => check_points arc nums d ok out
+  | CPoints arc inrange nums d ok out => check_points arc inrange nums d ok out
   | CViewbox p w h vx vy vw vh o1 o2 o3 o4 => check_viewbox p w h vx vy vw vh o1 o2 o3 o4
   | CShapes shs r => check_shapes shs r
   | CUse g root r => check_use g root r
@@ -239,7 +243,7 @@ Definition model_out (c : case) : mout :=
   match c with
   | CPath _ d _ => MPath (lex_path cv_f32 d) (pf d)
   | CBad d _ => MPath (lex_path cv_f32 d) (pf d)
-  | CPoints arc _ d _ _ => MPoints (parse_points cv_f32 arc d)
+  | CPoints arc _ _ d _ _ => MPoints (parse_points cv_f32 arc d)
   | CViewbox p w h vx vy vw vh _ _ _ _ =>
       let '(a, b, c, d) := viewbox_transform f32 p w h vx vy vw vh in MViewbox a b c d
   | CShapes shs _ => MShapes (shapes_ops shs)
